@@ -8,7 +8,7 @@
     lr.Parser.Parse / ParseAndBuildAST, for every grammar, table and input. *)
 From Coq Require Import List ZArith.
 From Algo.Grammar Require Import CFG.
-From Algo.C11 Require Import Model Spec Proofs ProofsOracle.
+From Algo.C11 Require Import Model Spec Proofs ProofsTerm ProofsOracle.
 Import ListNotations.
 
 (** Soundness of the driver over any certified table: if [Parse] accepts [w] then [w] is a
@@ -26,6 +26,22 @@ Theorem C11_driver_sound :
     yield (ast_of evs) = map Some w /\
     postorder (ast_of evs) = prods_of evs.
 Proof. intros G tbl lbl fuel w evs OK H. exact (driver_sound G tbl lbl OK w fuel evs H). Qed.
+
+(** Termination: over a table that also passes [term_ok B] (no reduce-only cycle: from every
+    pair of adjacent stack states and every lookahead the reductions stop or pop below the pair
+    within [B] steps) the loop of [Parse] runs at most [B * (1 + |w| * (B + 1)) + 1] times, for
+    every input; it never returns [Hang], and more fuel never changes the result. *)
+Theorem C11_driver_terminates :
+  forall (G : gram) (tbl : table) (lbl : list (list sym)) (B : nat) (w : list nat) (fuel : nat),
+    table_ok G tbl lbl = true -> term_ok B tbl = true ->
+    B * (1 + length w * (B + 1)) + 1 <= fuel ->
+    parse fuel tbl w <> Hang /\
+    forall fuel', fuel <= fuel' -> parse fuel' tbl w = parse fuel tbl w.
+Proof.
+  intros G tbl lbl B w fuel OK TOK Hf.
+  assert (H : parse fuel tbl w <> Hang) by (apply (driver_terminates G tbl lbl OK w B TOK); exact Hf).
+  split; [exact H|]. intros fuel' Hle. now apply parse_fuel_irrelevant.
+Qed.
 
 (** The membership oracle used for the completeness search never lists a non-sentence. *)
 Theorem C11_oracle_sound :
@@ -53,4 +69,5 @@ Example C11_example :
 Proof. vm_compute. repeat split. Qed.
 
 Print Assumptions C11_driver_sound.
+Print Assumptions C11_driver_terminates.
 Print Assumptions C11_oracle_sound.
